@@ -122,6 +122,10 @@ impl Case1 {
 /// ranks (0 rarely)
 pub fn qshape(src: &mut Src, rank: usize) -> Vec<usize> {
     if rank == 1 {
+        // occasionally long batches (size thresholds: chunking, unrolling, ...)
+        if src.chance(1, 40) {
+            return vec![src.usize_in(10, 130)];
+        }
         return vec![src.weighted(&[1, 4, 4, 3, 2, 2, 1, 1, 1, 1])];
     }
     (0..rank).map(|_| src.weighted(&[1, 4, 4, 3, 1])).collect()
